@@ -24,6 +24,7 @@ from src.core.linter_utils import (
     has_file_content,
     is_ignored_path,
     load_linter_config,
+    path_in_project,
     resolve_file_path,
 )
 from src.core.types import Violation
@@ -113,7 +114,7 @@ class BlockingAsyncRule(BaseLintRule):
             return False
         if not config.enabled:
             return False
-        return not is_ignored_path(resolve_file_path(context), config.ignore)
+        return not is_ignored_path(str(path_in_project(context) or "unknown"), config.ignore)
 
     def _get_config(self, context: BaseLintContext) -> BlockingAsyncConfig:
         """Load configuration from override or context metadata.
